@@ -333,17 +333,20 @@ impl QueryTask {
                         &'static HashMap<String, Arc<dyn DataSource>>,
                     >(&data_sources)
                 };
-                let full_result = final_pass
-                    .run(
-                        cols,
-                        self.explain,
-                        !self.show.is_empty(),
-                        0xdead_beef,
-                        0..cols.iter().next().map(|(_, c)| c.len()).unwrap_or(0),
-                        self.batch_size,
-                    )
-                    .unwrap()
-                    .0;
+                let full_result = match final_pass.run(
+                    cols,
+                    self.explain,
+                    !self.show.is_empty(),
+                    0xdead_beef,
+                    0..cols.iter().next().map(|(_, c)| c.len()).unwrap_or(0),
+                    self.batch_size,
+                ) {
+                    Ok((full_result, _)) => full_result,
+                    Err(error) => {
+                        self.fail_with_no_lock(error);
+                        return;
+                    }
+                };
                 self.convert_to_output_format(&full_result, &state.explains)
             } else {
                 self.convert_to_output_format(&full_result, &state.explains)
